@@ -383,3 +383,256 @@ Proof.
   intros t s H. unfold enter. destruct (s_now s <? t); [|exact H]. cbv zeta.
   apply cleanup_run_closed; [intros s1 w [A [B C]]; split; [fi_prim A|split; [bt_go0|t_BQ]] | intros; apply FBQ_run_entry; assumption | destruct H as [A [B C]]; split; [fi_prim A|split; [bt_go0|t_BQ]]].
 Qed.
+
+(* ---- Synchronize: the part after the size class queue was found or created -------------------------------------------------------------- *)
+Definition sync_rest (c : nat) (a : sync_args) (s : state) : state :=
+  let w := y_worker a in
+  let k := w_sk w in
+    let r2 : state + N :=
+      if worker_exists s w then
+        match k_cleanup (get_worker s w) with
+        | None => inr cEXHAUSTED
+        | Some _ => inl (upd_worker w (fun k => k <| k_cleanup := None |>) s)
+        end
+      else
+        let nl := List.length (limits_of s k) in
+        let s := upd_scq k (fun q => q <| q_workers ::= fun l => l ++ [(w, mkWorker None None false (Some []) false (repeat 0 nl))] |>) s in
+        inl (upd_inv (mkI k []) (fun v => v <| v_idle ::= N.succ |>) s) in
+    match r2 with
+    | inr code => ret c code s
+    | inl s =>
+      match y_state a with
+      | WNoState => sync_return_err c w cINVALID s
+      | WIdle => get_current_or_next c w true (y_prefer_idle a) s
+      | WExecuting d =>
+        if running_correct s w d
+        then finish_sync c w (emit (OSync c DNone (s_now s + cf_busy_sync (s_cfg s))) s)
+        else get_current_or_next c w false (y_prefer_idle a) s
+      | WCompleted d r =>
+        if running_correct s w d
+        then match k_task (get_worker s w) with
+             | Some t => get_next_task c w true (y_prefer_idle a) (complete_task t r true s)
+             | None => s
+             end
+        else get_current_or_next c w true (y_prefer_idle a) s
+      end
+    end.
+
+Lemma sync_rest_closed (P : state -> Prop) c a :
+  (forall s code, P s -> P (ret c code s)) ->
+  (forall s w, P s -> P (upd_worker w (fun k => k <| k_cleanup := None |>) s)) ->
+  (forall s k w n, P s -> P (upd_scq k (fun q => q <| q_workers ::= fun l => l ++ [(w, mkWorker None None false (Some []) false (repeat 0 n))] |>) s)) ->
+  (forall s i, P s -> P (upd_inv i (fun v => v <| v_idle ::= N.succ |>) s)) ->
+  (forall s w code, P s -> P (sync_return_err c w code s)) ->
+  (forall s w b pr, P s -> P (get_current_or_next c w b pr s)) ->
+  (forall s w b pr, P s -> P (get_next_task c w b pr s)) ->
+  (forall s w d z, P s -> P (finish_sync c w (emit (OSync c d z) s))) ->
+  (forall s w t r, P s -> k_task (get_worker s w) = Some t -> P (complete_task t r true s)) ->
+  forall s, P s -> P (sync_rest c a s).
+Proof.
+  intros Hret Hkdis Hnw Hidle Herr Hcur Hnext Hnone Hcomp s H. unfold sync_rest. cbv zeta.
+  match goal with |- P (match ?R with _ => _ end) => destruct R as [s2|code2] eqn:ER end; [|apply Hret; exact H].
+  assert (H2 : P s2) by (sum_cases ER; injection ER as <-; auto).
+  clear ER H. revert H2. generalize s2. clear s. intros s H.
+  destruct (y_state a) as [|d|d r|]; auto.
+  - destruct (running_correct s (y_worker a) d); auto.
+  - destruct (running_correct s (y_worker a) d); auto.
+    destruct (k_task (get_worker s (y_worker a))) as [t|] eqn:Ek; [|exact H]. apply Hnext. eapply Hcomp; eassumption.
+Qed.
+
+Lemma SB_get_next_task : forall c w b pr s, SB s -> SB (get_next_task c w b pr s).
+Proof. intros. unfold get_next_task, sync_loop, assign_next_queued_task, assign_queued, assign_unqueued, report_non_final_stage_change, sync_return_exec, sync_return_idle, finish_sync. sb_go. Qed.
+
+Lemma BQ_get_current_or_next : forall c w b pr s, FI s -> BT s -> BQ s -> BQ (get_current_or_next c w b pr s).
+Proof.
+  intros c w b pr s HF HT HB. unfold get_current_or_next.
+  destruct (k_task (get_worker s w)) as [t|] eqn:Ek; [|exact (proj2 (SB_get_next_task c w b pr s (FI_SB _ HF HB)))].
+  destruct (Nat.ltb _ _).
+  { pose proof (FI_SB _ HF HB) as HSB. match goal with |- BQ ?e => assert (Hx : SB e) by (unfold sync_return_exec, finish_sync; sb_go); exact (proj2 Hx) end. }
+  apply (fun H => proj2 (SB_get_next_task c w b pr _ H)).
+  apply SB_complete_task; [exact (FI_W _ HF)|exact (W_pick_worker _ _ _ (FI_W _ HF) Ek)|exact (FI_pqs_nodup _ HF)|exact HT|exact (FI_SB _ HF HB)].
+Qed.
+
+Lemma BQ_add_scq : forall k b s, BQ s -> BQ (add_scq k b s).
+Proof.
+  intros k b s H. unfold add_scq. cbv zeta. apply BQ_invs_new.
+  apply (BQ_frame (upd_pq (sk_pk k) (fun p => p <| p_scs ::= insert_sorted (sk_sc k) |>) s)); [reflexivity|reflexivity|].
+  apply BQ_upd_pq; [intro; split; reflexivity|exact H].
+Qed.
+
+(* ---- Synchronize -------------------------------------------------------------------------------------------------------------------------------------------- *)
+Definition BQP (s : state) : Prop := Pan s \/ BQ s.
+
+Lemma Pan_sync_start : forall c a s, Pan s -> Pan (sync_start c a s).
+Proof.
+  intros c a s H. apply (sync_start_closed Pan); try exact H; intros;
+    unfold ret, add_scq, add_pq, sync_return_err, finish_sync, get_current_or_next, get_next_task, sync_loop, assign_next_queued_task, sync_return_exec, sync_return_idle, finish_sync;
+    inv_go fail t_pan.
+Qed.
+
+Lemma BQP_sync_start : forall c a s,
+  is_phantom (y_worker a) = false ->
+  (forall d r, y_state a = WCompleted d r -> BG (y_worker a) r s) ->
+  FI s -> BT s -> BQ s -> BQP (sync_start c a s).
+Proof.
+  intros c a s Hph Hbg H HT HB.
+  destruct (NX_CM _ _ (FI_NX _ H)) as [Hp|[_ HM]]; [left; apply Pan_sync_start; exact Hp|right].
+  (* the structure invariants of the intermediate states come from the C01 layer: follow its proof *)
+  unfold sync_start. cbv zeta. set (w := y_worker a) in *. set (k := w_sk w).
+  match goal with |- BQ (match ?R with _ => _ end) => destruct R as [s1|code1] eqn:ER end; [|unfold ret; t_BQ].
+  assert (H1 : FI s1 /\ scq_exists s1 k = true /\ q_cleanup (get_scq s1 k) = None /\ (forall d r, y_state a = WCompleted d r -> BG w r s1) /\ BT s1 /\ BQ s1).
+  { destruct (scq_exists s k) eqn:Ee.
+    - injection ER as <-. split; [fi_prim H|]. split; [rewrite scq_exists_upd_scq; exact Ee|]. split; [rewrite get_scq_upd_scq, skey_eqb_refl, Ee; reflexivity|]. split; [|split; [bt_go0|t_BQ]].
+      intros d r E. eapply BG_frame; [ | | |exact (Hbg d r E)]; [rewrite get_worker_upd_scq_keep by reflexivity; reflexivity|rewrite upd_scq_eq; reflexivity|rewrite upd_scq_eq; reflexivity].
+    - assert (Hwn : forall b s0, scq_exists s0 k = false -> k_task (get_worker (add_scq k b s0) w) = None).
+      { intros b s0 He0. unfold get_worker. fold k. rewrite get_scq_add_scq_new by exact He0. reflexivity. }
+      pose proof H as [HSW [HW [HSp HNX]]]. destruct (get_pq s (sk_pk k)) as [p|] eqn:Ep.
+      + sum_cases ER. injection ER as <-. apply get_pq_some_in in Ep. destruct Ep as [Ep1 Ep2].
+        split; [|split; [rewrite scq_exists_add_scq, skey_eqb_refl; apply orb_true_r|split; [rewrite get_scq_add_scq_new by exact Ee; reflexivity|split; [intros d r _; apply BG_none; apply Hwn; exact Ee|split; [unfold add_scq; bt_go0|]]]]].
+        * split; [apply SW_add_scq; [exact Ee|exists p; auto|exact HSW]|]. split; [w_of_wl HW; unfold add_scq; w_go2|]. split; [apply Sp_add_scq; assumption|apply NX_add_scq; [exact Ee|exists p; auto|exact HNX]].
+        * apply BQ_add_scq. exact HB.
+      + injection ER as <-.
+        assert (Hp : SW (add_pq (sk_pk k) [] 0 0 s)) by (unfold add_pq; destruct HSW as [HS HWP]; split; [t_St|eapply WP_frame; [ | | |exact HWP]; reflexivity]).
+        assert (Hpq : exists p, In p (s_pqs (add_pq (sk_pk k) [] 0 0 s)) /\ p_key p = sk_pk k).
+        { unfold add_pq. cbn. eexists. split; [apply in_or_app; right; left; reflexivity|reflexivity]. }
+        split; [|split; [rewrite scq_exists_add_scq, skey_eqb_refl; apply orb_true_r|split; [rewrite get_scq_add_scq_new by exact Ee; reflexivity|split; [intros d r _; apply BG_none; apply Hwn; exact Ee|split; [unfold add_scq, add_pq; bt_go0|]]]]].
+        * split; [apply SW_add_scq; [exact Ee|exact Hpq|exact Hp]|]. split; [w_of_wl HW; unfold add_scq, add_pq; w_go2|].
+          split; [apply Sp_add_scq; [exact Ee|apply Sp_add_pq; assumption]|apply NX_add_scq; [exact Ee|exact Hpq|apply NX_add_pq; exact HNX]].
+        * pose proof (BQ_add_pq s (sk_pk k) [] 0%nat 0 (SW_St _ HSW) HM Ep HB) as HB1. set (s0 := add_pq (sk_pk k) [] 0 0 s) in *. clearbody s0.
+          apply BQ_add_scq. exact HB1. }
+  clear ER H Hbg HT HB HM. destruct H1 as [H [Hse [Hqc [Hbg [HT HB]]]]]. revert H Hse Hqc Hbg HT HB. generalize s1. clear s. intros s H Hse Hqc Hbg HT HB.
+  match goal with |- BQ (match ?R with _ => _ end) => destruct R as [s2|code2] eqn:ER end; [|unfold ret; t_BQ].
+  assert (H2 : FI s2 /\ (forall d r, y_state a = WCompleted d r -> BG w r s2) /\ BT s2 /\ BQ s2).
+  { pose proof H as [HSW [HW [HSp HNX]]]. destruct (worker_exists s w) eqn:Ee.
+    - destruct (k_cleanup (get_worker s w)) eqn:Ec; [|discriminate]. injection ER as <-.
+      split; [fi_prim H|]. split; [|split; [bt_go0|t_BQ]].
+      intros d r E. eapply BG_frame; [ | | |exact (Hbg d r E)]; [rewrite get_worker_upd_worker, wref_eqb_refl, Ee; reflexivity|rewrite upd_worker_eq; reflexivity|rewrite upd_worker_eq; reflexivity].
+    - injection ER as <-. set (s2 := upd_scq k _ s).
+      assert (Hs2 : SW s2) by (destruct HSW as [HS HWP]; split; [apply St_newworker; assumption|apply WP_newworker; assumption]).
+      assert (HX2 : XS [] s2) by (apply XS_newworker; [exact Ee|exact Hph|exact (NX_XS _ _ HNX)]).
+      assert (HN2 : NX [] s2) by (split; [exact HX2|]; destruct HNX as [_ [B C]]; unfold s2; split; [t_TK|t_CM]).
+      assert (HW2 : W s2) by (w_of_wl HW; unfold s2; w_go2).
+      assert (HSp2 : Sp s2) by (unfold s2; sp_go).
+      assert (Hg2 : get_worker s2 w = mkWorker None None false (Some []) false (repeat 0 (List.length (limits_of s k)))) by (apply get_worker_newworker_aux; assumption).
+      assert (HF2 : FI s2) by (split; [exact Hs2|split; [exact HW2|split; [exact HSp2|exact HN2]]]).
+      split; [fi_prim HF2|]. split; [intros d r _; apply BG_none; rewrite (get_worker_frame' s2) by apply scqs_upd_inv; rewrite Hg2; reflexivity|].
+      assert (HT2 : BT s2) by (unfold s2; bt_go0). assert (HB2 : BQ s2) by (unfold s2; t_BQ). clearbody s2. split; [bt_go0|t_BQ]. }
+  clear ER H Hse Hqc Hbg HT HB. destruct H2 as [H [Hbg [HT HB]]]. revert H Hbg HT HB. generalize s2. clear s. intros s H Hbg HT HB. unfold k in *. clear k.
+  assert (HSB : SB s) by exact (FI_SB _ H HB).
+  destruct (y_state a) as [|d|d r|] eqn:Ey.
+  - apply BQ_get_current_or_next; assumption.
+  - destruct (running_correct s w d); [|apply BQ_get_current_or_next; assumption]. unfold finish_sync. match goal with |- BQ ?e => assert (Hx : SB e) by sb_go; exact (proj2 Hx) end.
+  - destruct (running_correct s w d); [|apply BQ_get_current_or_next; assumption].
+    destruct (k_task (get_worker s w)) as [t|] eqn:Ek; [|exact HB].
+    apply (fun Hx => proj2 (SB_get_next_task c w true (y_prefer_idle a) _ Hx)).
+    apply SB_complete_task; [exact (FI_W _ H)|exact (W_pick_worker _ _ _ (FI_W _ H) Ek)|exact (FI_pqs_nodup _ H)|exact HT|exact HSB].
+  - unfold sync_return_err, finish_sync. match goal with |- BQ ?e => assert (Hx : SB e) by sb_go; exact (proj2 Hx) end.
+Qed.
+
+(* ---- Execute ------------------------------------------------------------------------------------------------------------------------------------------------ *)
+Lemma SB_wait_execution_begin : forall c o s, SB s -> SB (wait_execution_begin c o s).
+Proof. intros. unfold wait_execution_begin, stream_iter. sb_go. Qed.
+
+Lemma SB_exec_start : forall c a s, exec_bg_ok a -> W s -> SB s -> SB (exec_start c a s).
+Proof.
+  intros c a s [Hk _] HW H. unfold exec_start. pose proof (W_op_fresh s HW) as Hfo. pose proof (W_task_fresh s HW) as Hft.
+  destruct (aget dkey_eqb _ _) as [t0|].
+  - cbv zeta. set (k := task_scq (emit (OGhost GSelAbandoned) s) t0).
+    set (s2 := get_or_create_invocation k (x_keys a) (emit (OGhost GSelAbandoned) s)).
+    assert (H2 : SB s2) by (unfold s2; sb_go).
+    destruct (goc_frames k (x_keys a) (emit (OGhost GSelAbandoned) s)) as [_ [G2 _]]. destruct (get_or_create_invocation_tasks k (x_keys a) (emit (OGhost GSelAbandoned) s)) as [_ [G3 _]]. fold s2 in G2, G3.
+    destruct (aget iref_eqb _ _); [apply SB_wait_execution_begin; exact H2|].
+    unfold new_operation. cbv iota beta. apply SB_wait_execution_begin.
+    match goal with |- SB (match task_stage (get_task ?e t0) with _ => _ end) => set (s3 := e) end.
+    assert (H3 : SB s3) by (unfold s3; destruct H2 as [A B]; split; [eapply St_frame; [| | |exact A]; reflexivity|eapply BQ_frame; [| |exact B]; reflexivity]).
+    assert (Eo3 : o_inv (get_op s3 (s_nops s2)) = mkI k (x_keys a)).
+    { unfold s3. rewrite (get_op_frame (s2 <| s_nops ::= S |> <| s_ops ::= fun l0 => l0 ++ [(s_nops s2, mkOper t0 (x_prio a) (mkI k (x_keys a)) 0 false None)] |>)) by reflexivity.
+      rewrite get_op_newop. rewrite G2, G3. change (s_ops (emit (OGhost GSelAbandoned) s)) with (s_ops s). change (s_nops (emit (OGhost GSelAbandoned) s)) with (s_nops s). rewrite Hfo, Nat.eqb_refl. reflexivity. }
+    clearbody s3. destruct (task_stage (get_task s3 t0)) as [|[ | |]]; try (sb_go; fail).
+    all: try (destruct p; try (sb_go; fail)).
+    all: try (apply SB_enqueue_other; [rewrite Eo3; exact Hk|exact H3]).
+    all: try (destruct (t_worker (get_task s3 t0)); sb_go).
+  - destruct (longest_prefix_pq s _ _) as [p|]; [|unfold ret; sb_go].
+    destruct (x_sel a) as [[[idx dur] timeout] l]. cbv zeta.
+    set (s1 := emit (OGhost GSelect) s). set (k := mkSK (p_key p) (nth idx (p_scs p) 0%N)).
+    set (x := mkTask [] (x_instance a) (x_digest a) (Some (x_dnc a)) timeout (s_now s1) (drop_prefix (pk_prefix (p_key p)) (x_instance a)) None 0 dur (Some l) None 0).
+    set (t := s_ntasks s1).
+    set (sN := s1 <| s_ntasks ::= S |> <| s_tasks ::= fun ts => ts ++ [(t, x)] |>).
+    set (s3 := if x_dnc a then sN else sN <| s_inflight ::= aset dkey_eqb (x_instance a, x_digest a) t |>).
+    assert (H3 : SB s3 /\ get_task s3 t = x /\ s_ops s3 = s_ops s /\ s_nops s3 = s_nops s).
+    { assert (HN : SB sN) by (unfold sN, s1; destruct H as [A B]; split; [eapply St_frame; [| | |exact A]; reflexivity|eapply BQ_frame; [| |exact B]; reflexivity]).
+      assert (Eg : get_task sN t = x) by (unfold sN, t; rewrite get_task_newtask; change (s_tasks s1) with (s_tasks s); change (s_ntasks s1) with (s_ntasks s); rewrite Hft, Nat.eqb_refl; reflexivity).
+      unfold s3. destruct (x_dnc a); [split; [exact HN|split; [exact Eg|split; reflexivity]]|].
+      split; [destruct HN as [A B]; split; [eapply St_frame; [| | |exact A]; reflexivity|eapply BQ_frame; [| |exact B]; reflexivity]|split; [exact Eg|split; reflexivity]]. }
+    destruct H3 as [H3 [Eg3 [Eo3 En3]]]. clearbody s3.
+    set (s4 := get_or_create_invocation k (x_keys a) s3). assert (H4 : SB s4) by (apply SB_get_or_create_invocation; exact H3).
+    destruct (goc_frames k (x_keys a) s3) as [G1 [G2 _]]. destruct (get_or_create_invocation_tasks k (x_keys a) s3) as [_ [G3 _]]. fold s4 in G1, G2, G3.
+    unfold new_operation. cbv iota beta. apply SB_wait_execution_begin.
+    match goal with |- SB (schedule t ?e) => set (s5 := e) end.
+    assert (H5 : SB s5) by (unfold s5; destruct H4 as [A B]; split; [eapply St_frame; [| | |exact A]; reflexivity|eapply BQ_frame; [| |exact B]; reflexivity]).
+    apply SB_schedule_other; [|exact H5]. intros o Ho. unfold task_opids, s5 in Ho. rewrite get_task_upd_task, Nat.eqb_refl in Ho. cbn [t_ops set] in Ho.
+    rewrite (get_task_frame s4) in Ho by reflexivity. rewrite (get_task_frame _ _ _ G1), Eg3 in Ho. cbn in Ho. destruct Ho as [<-|[]].
+    unfold s5. rewrite (get_op_frame (s4 <| s_nops ::= S |> <| s_ops ::= fun l0 => l0 ++ [(s_nops s4, mkOper t (x_prio a) (mkI k (x_keys a)) 0 false None)] |>)) by reflexivity.
+    rewrite get_op_newop. rewrite G2, Eo3, G3, En3, Hfo, Nat.eqb_refl. cbn. exact Hk.
+Qed.
+
+(* ---- events --------------------------------------------------------------------------------------------------------------------------------------------------- *)
+Lemma SB_wake_fold : forall p (l : list (wref * worker)) s,
+  SB s -> SB (fold_left (fun s '(w, _) => if k_wait (get_worker s w) && matches w p then wake_up w s else s) l s).
+Proof.
+  intros p l s H. apply fold_left_pres; [|exact H]. intros a [w kw] Ha. destruct (_ && _); [unfold wake_up; apply SB_dequeue_worker; exact Ha|exact Ha].
+Qed.
+
+Lemma BQ_register_fold : forall k scs s, BQ s -> BQ (fold_left (fun s sc => add_scq (mkSK k sc) false s) scs s).
+Proof. intros k scs. induction scs as [|sc scs IH]; intros s H; cbn [fold_left]; [exact H|]. apply IH. apply BQ_add_scq. exact H. Qed.
+
+Lemma BQP_step_core : forall e s, ev_sel_ok s e -> ev_bg_ok e -> TOP s -> BT s -> BQ s -> BQP (step_core e s).
+Proof.
+  intros e s Hev Hbg HTOP HT HB. pose proof HTOP as [H [HTN HI]].
+  assert (HFe : forall t, FBQ (enter t s)) by (intro t; apply FBQ_enter; split; [exact H|split; assumption]).
+  assert (Hsb : forall t, SB (enter t s)) by (intro t; destruct (HFe t) as [A [_ C]]; exact (FI_SB _ A C)).
+  assert (Hfin : forall s', SB s' -> BQP s') by (intros s' Hs; right; exact (proj2 Hs)).
+  destruct e; cbn [ev_sel_ok ev_bg_ok] in Hev, Hbg; unfold step_core.
+  - (* Execute *) apply Hfin. destruct (HFe t) as [A _]. apply SB_exec_start; [exact Hbg|exact (FI_W _ A)|exact (Hsb t)].
+  - apply Hfin. pose proof (Hsb t) as He. set (s1 := enter t s) in *. clearbody s1. cbv zeta. unfold ret. sb_go.
+  - (* Synchronize *) destruct Hev as [Hph Hb]. destruct (HFe t) as [A [B C]]. apply BQP_sync_start; assumption.
+  - apply Hfin. pose proof (Hsb t) as He. set (s1 := enter t s) in *. clearbody s1. unfold kill_lookup, ret. sb_go.
+  - (* kill a queue *)
+    apply Hfin. pose proof (HFe t) as HF1. pose proof (Hsb t) as He. set (s1 := enter t s) in *. clearbody s1. cbv zeta.
+    destruct (negb (scq_exists s1 k)); [unfold ret; sb_go|]. destruct (negb _); [unfold ret; sb_go|].
+    pose proof (FBQ_cancel_all_queued (mkI k []) (mkResp code 0 0) s1 (kill_not_success _ Hev) HF1) as [A [_ C]].
+    pose proof (FI_SB _ A C) as Hc. set (s2 := cancel_all_queued _ _ s1) in *. clearbody s2. unfold ret. sb_go.
+  - (* add a drain *)
+    apply Hfin. pose proof (Hsb t) as He. set (s1 := enter t s) in *. clearbody s1. cbv zeta.
+    destruct (negb (scq_exists s1 k)); [unfold ret; sb_go|].
+    set (s2 := upd_scq k _ s1). assert (H2 : SB s2) by (unfold s2; sb_go). clearbody s2.
+    pose proof (SB_wake_fold p (q_workers (get_scq s2 k)) s2 H2) as H3. set (s3 := fold_left _ _ s2) in *. clearbody s3. unfold ret. sb_go.
+  - apply Hfin. pose proof (Hsb t) as He. set (s1 := enter t s) in *. clearbody s1. cbv zeta. unfold ret. sb_go.
+  - (* terminate *)
+    apply Hfin. cbv zeta. pose proof (Hsb t) as He. set (s1 := enter t s) in *. clearbody s1.
+    match goal with |- SB (match ?x with _ => _ end) => rewrite (surjective_pairing x) end. cbv beta iota.
+    match goal with |- SB (set_call _ _ (fst (fold_left ?g ?l ?a))) => assert (H2 : SB (fst (fold_left g l a))) end.
+    { match goal with |- SB (fst (fold_left ?g ?l ?a)) => apply (fold_left_pres (fun acc => SB (fst acc)) g l) end; [|exact He].
+      intros [s2 w2] w H2. cbn [fst] in *. unfold mark_terminating, wake_up. sb_go. }
+    set (s2 := fst _) in *. clearbody s2. sb_go.
+  - (* register *)
+    destruct (_ || _) eqn:Ev; [apply Hfin; pose proof (FI_SB _ H HB) as H0; unfold ret; sb_go|]. cbv zeta.
+    destruct (HFe t) as [A [B C]]. set (s1 := enter t s) in *. clearbody s1.
+    destruct (get_pq s1 k) as [p|] eqn:Ep; [apply Hfin; pose proof (FI_SB _ A C) as H0; unfold ret; sb_go|].
+    destruct (NX_CM _ _ (FI_NX _ A)) as [Hp|[_ HM]]; [left; unfold ret, add_pq; match goal with |- Pan (set_call _ _ (emit _ (fold_left ?g ?l ?a))) => assert (Hx : Pan (fold_left g l a)) by (apply fold_left_pres; [intros; unfold add_scq; inv_go fail t_pan|inv_go fail t_pan]) end; inv_go fail t_pan|right].
+    pose proof (BQ_add_pq s1 k limits maxbg bgprio (SW_St _ (FI_SW _ A)) HM Ep C) as H1.
+    pose proof (BQ_register_fold k scs _ H1) as H2. set (s2 := fold_left _ scs _) in *. clearbody s2. unfold ret. t_BQ.
+  - apply Hfin. pose proof (Hsb t) as He. unfold ret. sb_go.
+  - (* EEnter *)
+    cbv zeta. destruct (negb (at_gate s (get_call s c))); [right; exact HB|]. destruct (HFe t) as [A [B C]]. pose proof (Hsb t) as He. set (s1 := enter t s) in *. clearbody s1.
+    destruct (get_call s c); try (right; exact C);
+      try (apply Hfin; unfold stream_iter, stream_return, kill_lookup, wait_execution_begin, stream_iter, ret, sync_loop, assign_next_queued_task, assign_queued, assign_unqueued, report_non_final_stage_change, sync_return_exec, sync_return_err, sync_return_idle, finish_sync, maybe_dequeue; sb_go; fail).
+    apply Hfin. destruct (op_alive s1 name) eqn:Ea; [|sb_go].
+    pose proof (SB_complete_task (o_task (get_op s1 name)) (mkResp code 0 0) false s1 (FI_W _ A) (W_pick_op _ _ (FI_W _ A) Ea) (FI_pqs_nodup _ A) B He) as Hc.
+    set (s2 := complete_task _ _ false s1) in *. clearbody s2. unfold ret. sb_go.
+  - (* ETimer *)
+    cbv zeta. destruct (at_gate s (get_call s c)); [right; exact HB|]. apply Hfin. pose proof (Hsb t) as He. pose proof (FI_SB _ H HB) as H0. set (s1 := enter t s) in *. clearbody s1.
+    destruct (get_call s c); unfold stream_iter, sync_return_exec, sync_return_idle, finish_sync, maybe_dequeue; sb_go.
+  - (* ECancel *)
+    cbv zeta. destruct (at_gate s (get_call s c)); [right; exact HB|]. apply Hfin. pose proof (FI_SB _ H HB) as H0. destruct (get_call s c); unfold ret; sb_go.
+Qed.
